@@ -909,15 +909,103 @@ Proof.
   destruct Kc as [Kc|Kc]; rewrite Kc in *; clear Kc; rewrite Kk in *.
   - exists (VQ a :: lin_steps a b (Z.to_nat c) 1 (Z.to_nat c) ++ [VQ b]).
     split; [|split; [exact Hread|split]].
-    + cbn [hd_error]. rewrite El. subst cntp. destruct omitted; cbn [app]; rewrite <- ?app_assoc; reflexivity.
+    + subst cntp. rewrite <- !app_assoc. reflexivity.
     + intros prev rest. cbn [app spec_expand_aux mk_tok]. rewrite cnt_count_tok by exact Ho.
       exists (Some (VQ b)). destruct (spec_expand_aux (Some (VQ b)) rest); cbn; rewrite <- ?app_assoc; reflexivity.
     + rewrite Hcn. exact Hs.
   - destruct (qpos a && qpos b) eqn:Hpos; [|discriminate].
     exists (VQ a :: log_steps a b (Z.to_nat c) 1 (Z.to_nat c) ++ [VQ b]).
     split; [|split; [exact Hread|split]].
-    + cbn [hd_error]. rewrite El. subst cntp. destruct omitted; cbn [app]; rewrite <- ?app_assoc; reflexivity.
+    + subst cntp. rewrite <- !app_assoc. reflexivity.
     + intros prev rest. cbn [app spec_expand_aux mk_tok]. rewrite cnt_count_tok by exact Ho. rewrite Hpos.
       exists (Some (VQ b)). destruct (spec_expand_aux (Some (VQ b)) rest); cbn; rewrite <- ?app_assoc; reflexivity.
     + rewrite Hcn. exact Hs.
+Qed.
+
+(* ------------------------------------------------------------------ whole lists *)
+Lemma node_sound : forall n is_last, node_diag n is_last = "" ->
+  exists ps toks exp, node_pieces n is_last = Ok ps /\ reads_as ps toks is_last /\
+    means toks exp /\ vlist_close exp (map leaf_val (lnode_leaves n)) = true.
+Proof.
+  intros [l|s] is_last H.
+  - apply free_leaf_sound; auto.
+  - cbn [lnode_leaves]. destruct (skind s) eqn:K.
+    + apply repeat_sound; auto.
+    + apply multiply_sound; auto.
+    + apply jump_sound; auto.
+    + apply interp_sound; auto.
+    + apply interp_sound; auto.
+Qed.
+
+Definition nosh (nodes : list lnode) : Prop :=
+  Forall (fun n => match n with NSc s => sshare s = false | NVal _ => True end) nodes.
+Definition is_nil {A} (l : list A) : bool := match l with [] => true | _ => false end.
+
+Fixpoint fmt_all (nodes : list lnode) : res (list piece) :=
+  match nodes with
+  | [] => Ok []
+  | n :: r => match node_pieces n (is_nil r), fmt_all r with
+              | Ok a, Ok b => Ok (a ++ b)
+              | Err e, _ => Err e
+              | _, Err e => Err e
+              end
+  end.
+Fixpoint diag_all (nodes : list lnode) : list string :=
+  match nodes with
+  | [] => []
+  | n :: r => node_diag n (is_nil r) :: diag_all r
+  end.
+
+Lemma format_nodes_nosh : forall nodes prev, nosh nodes -> format_nodes nodes prev = fmt_all nodes.
+Proof.
+  induction nodes as [|n r IH]; intros prev H; [reflexivity|].
+  inversion H as [|n' r' Hn Hr]; subst. cbn [format_nodes fmt_all].
+  rewrite (IH (Some n) Hr).
+  destruct n as [l|s].
+  - cbn [node_pieces]. destruct r; reflexivity.
+  - cbn [node_pieces]. rewrite Hn. destruct prev as [[l0|p]|]; reflexivity.
+Qed.
+
+Lemma nodes_diag_nosh : forall nodes prev, nosh nodes -> nodes_diag nodes prev = diag_all nodes.
+Proof.
+  induction nodes as [|n r IH]; intros prev H; [reflexivity|].
+  inversion H as [|n' r' Hn Hr]; subst. cbn [nodes_diag diag_all].
+  rewrite (IH (Some n) Hr). f_equal.
+  destruct n as [l|s]; cbn [node_diag].
+  - destruct r; reflexivity.
+  - rewrite Hn. destruct r; destruct prev as [[l0|p]|]; reflexivity.
+Qed.
+
+Lemma fmt_all_sound : forall nodes, Forall (fun d => d = "") (diag_all nodes) ->
+  exists ps toks out, fmt_all nodes = Ok ps /\
+    (forall acc, piece_tokens_aux ps [] acc = acc ++ toks) /\
+    (forall prev, spec_expand_aux prev toks = Some out) /\
+    vlist_close out (map leaf_val (flatten nodes)) = true.
+Proof.
+  induction nodes as [|n r IH]; intros H.
+  - exists [], [], []. repeat split; auto. intros acc. cbn. rewrite app_nil_r. reflexivity.
+  - cbn [diag_all] in H. inversion H as [|d ds Hd Hds]; subst.
+    destruct (IH Hds) as [ps2 [toks2 [out2 [Hf2 [Hr2 [Hs2 Hv2]]]]]].
+    destruct (node_sound n (is_nil r) Hd) as [ps1 [toks1 [exp1 [Hf1 [Hr1 [Hm1 Hv1]]]]]].
+    exists (ps1 ++ ps2), (toks1 ++ toks2), (exp1 ++ out2).
+    split; [cbn [fmt_all]; rewrite Hf1, Hf2; reflexivity|]. split; [|split].
+    + intros acc. rewrite Hr1.
+      * rewrite Hr2. rewrite app_assoc. reflexivity.
+      * intros E. destruct r; [|discriminate]. cbn in Hf2. inversion Hf2. reflexivity.
+    + intros prev. destruct (Hm1 prev toks2) as [prev' Hp]. rewrite Hp, Hs2. reflexivity.
+    + cbn [flatten flat_map]. rewrite map_app. apply vlist_close_app; auto.
+Qed.
+
+(* when every node is printed soundly, the text of the list reads back as the values of its nodes *)
+Theorem format_sound : forall l, nosh (lnodes l) -> format_ok l = true ->
+  exists ps out, format_list l = Ok ps /\ reexpand ps = Some out /\
+                 vlist_close out (map leaf_val (flatten (lnodes l))) = true.
+Proof.
+  intros l Hn Hok. unfold format_ok in Hok. rewrite nodes_diag_nosh in Hok by exact Hn.
+  assert (Hd : Forall (fun d => d = "") (diag_all (lnodes l))).
+  { apply Forall_forall. intros d Hin. rewrite forallb_forall in Hok. apply String.eqb_eq. apply Hok; auto. }
+  destruct (fmt_all_sound _ Hd) as [ps [toks [out [Hf [Hr [Hs Hv]]]]]].
+  exists ps, out. split; [|split]; auto.
+  - unfold format_list. rewrite format_nodes_nosh by exact Hn. exact Hf.
+  - unfold reexpand, piece_tokens, spec_expand. rewrite Hr. cbn [app]. apply Hs.
 Qed.
